@@ -13,6 +13,7 @@ What is proved, and in which arithmetic (each theorem says so in its docstring):
     innovation_variance_positive   Δt > 0 ∧ wander > 0 ∧ R ≥ 0 ⇒ the innovation variance P₀₀ + R > 0
                                    (so `1/S` in absorb_measurement is defined)
     absorb_keeps_psd               absorb_measurement incl. `symmetrize`: symmetric PSD ↦ symmetric PSD
+    absorb_keeps_psd_general       the same for EVERY measurement row (h0 h1) (S = h P hᵀ + R > 0)
     absorb_always_symmetric        `symmetrize` yields a symmetric matrix whatever the input
     weight_in_unit_interval        0 ≤ weight ≤ 1
     history_keeps_psd              EVERY history of (Δt > 0, wander > 0, R ≥ 0, value) update steps of a
@@ -22,6 +23,11 @@ What is proved, and in which arithmetic (each theorem says so in its docstring):
     root_dispersion_poly_nonneg    P₀₀ + t·P₀₁ + t²·P₁₁ + t³·w ≥ 0 (argument of the square root that
                                    becomes the clock's error estimate)
   ORDER-ONLY (F64 itself, arithmetic uninterpreted):
+    filter_history_no_panic        two-way filter: over EVERY history of measurements/Step/FreqChange from the
+                                   initial state no panic site is reached (precision_score/poll_score/inc/dec
+                                   overflows are unreachable) except from_seconds on a non-finite steering value
+    periodic_history_no_panic      the same for one-way/periodic sources (plus: a spent loop budget, F-C06e)
+    filter_measurements_never_panic  corollary: measurement-only histories never panic
     from_seconds_total_on_finite   `NtpDuration::from_seconds` panics exactly on NaN/±∞
     observe_ok_iff_finite          `SourceSnapshot::observe` succeeds iff offset, √variance and delay are
                                    not NaN/±∞ (this is what the oracle monitors on the implementation)
@@ -49,6 +55,7 @@ finiteness oracle), not proved.
 import NtpVerif.Proofs.KalmanExact
 import NtpVerif.Proofs.KalmanPeriodic
 import NtpVerif.Proofs.SourceFilterPeriodic
+import NtpVerif.Proofs.SourceFilterHistory
 import NtpVerif.Model.SourceFilter
 
 namespace NtpVerif.C06
@@ -83,6 +90,13 @@ theorem weight_in_unit_interval (s : KState α) (z r : α) (hP : PSD s.P) (hr : 
     (hS : 0 < s.P.a00 + r) :
     0 ≤ (absorbCore s 1 0 z r).weight ∧ (absorbCore s 1 0 z r).weight ≤ 1 :=
   absorb_weight_unit s z r hP hr hS
+
+/-- **absorb_keeps_psd_general** (exact arithmetic): `absorb_measurement` with EVERY measurement row
+    `(h0 h1)` (incl. `symmetrize`) maps symmetric PSD to symmetric PSD when `R ≥ 0` and the innovation variance
+    `S = h P hᵀ + R > 0`; moreover `det P' = det P · R / S`. -/
+theorem absorb_keeps_psd_general (s : KState α) (h0 h1 z r : α) (hP : PSD s.P) (hr : 0 ≤ r)
+    (hS : 0 < innovGen s.P h0 h1 r) : PSD (absorbCore s h0 h1 z r).st.P :=
+  absorb_psd_general s h0 h1 z r hP hr hS
 
 /-- one stable-filter update in exact arithmetic: `progress_filtertime` then `absorb_measurement` -/
 structure Step (α : Type) where
@@ -249,6 +263,47 @@ theorem periodic_update_no_panic (fuel : Nat) (f : OStable) (sc : SrcCfg) (ac : 
     OStable.update fuel f sc ac period m now ≠ .panic :=
   OStable.update_ne_panic fuel f sc ac period m now hlim hh hw hpoll hprec
 
+/-! ### history-level no-panic theorems (F64 models, arithmetic uninterpreted) -/
+
+/-- **filter_history_no_panic** (two-way `SourceFilter`/`SourceState`, F64 model, whatever the floats):
+    for every configuration with limits away from the `i8` corners, `min ≤ initial ≤ max` and negatable
+    hystereses, and EVERY history of measurements, `Step` and `FreqChange` messages from the initial state:
+    either the whole history runs without reaching any panic site — in particular `precision_score` and
+    `poll_score` never overflow, `PollInterval::inc/dec` never overflow, `abs_diff` is total — or the run
+    stops exactly at a steering message that makes a stable filter hand a non-finite value to
+    `NtpDuration::from_seconds` (`durFromSeconds v = none ↔ v` NaN/±∞, `from_seconds_total_on_finite`); the
+    score invariants hold at every state reached. -/
+theorem filter_history_no_panic (sc : SrcCfg) (ac : AlgoCfg) (hc : CfgOk sc ac) (ops : List FOp) :
+    (∃ x', frun sc ac (SState.new, 0) ops = some x' ∧ SInv sc ac x'.1) ∨
+    (frun sc ac (SState.new, 0) ops = none ∧ ∃ pre op post x', ops = pre ++ op :: post ∧
+      frun sc ac (SState.new, 0) pre = some x' ∧ SInv sc ac x'.1 ∧ SteerNonFinite x'.1 op) :=
+  frun_cases sc ac hc ops (SState.new, 0) trivial
+
+/-- **periodic_history_no_panic** (one-way / periodic sources, F64 model): for every period (or none),
+    every noise setting and EVERY history of measurements and steering messages from the initial state, the
+    run either completes, or stops on a spent loop budget (the real loop is still running: F-C06e), or — the
+    only panic — stops at a steering message whose (`% period`-reduced) value handed to `from_seconds` is
+    non-finite; the score invariants hold at every state reached.  (`observe` on a non-finite state is not
+    part of these ops: `observe_ok_iff_finite`, causes F-C06a–d.) -/
+theorem periodic_history_no_panic (fuel : Nat) (sc : SrcCfg) (ac : AlgoCfg) (period : Option F64)
+    (noise : FixedNoise) (hc : CfgOk sc ac) (ops : List OOp) :
+    Good (fun x' => OInv sc ac x'.1) (orun fuel sc ac period (OState.new noise, 0) ops) ∨
+    (orun fuel sc ac period (OState.new noise, 0) ops = .panic ∧ ∃ pre op post x',
+      ops = pre ++ op :: post ∧ orun fuel sc ac period (OState.new noise, 0) pre = .ok x' ∧
+      OInv sc ac x'.1 ∧ OSteerNonFinite period x'.1 op) :=
+  orun_cases fuel sc ac period hc ops (OState.new noise, 0) trivial
+
+/-- corollary: histories without steering messages never panic (two-way) -/
+theorem filter_measurements_never_panic (sc : SrcCfg) (ac : AlgoCfg) (hc : CfgOk sc ac)
+    (ms : List (Nat × Meas)) :
+    ∃ x', frun sc ac (SState.new, 0) (ms.map fun am => FOp.meas am.1 am.2) = some x' := by
+  rcases filter_history_no_panic sc ac hc (ms.map fun am => FOp.meas am.1 am.2) with ⟨x', h, _⟩ | ⟨_, pre, op, post, x', he, _, _, hnf⟩
+  · exact ⟨x', h⟩
+  · exfalso
+    have hmem : op ∈ ms.map fun am => FOp.meas am.1 am.2 := by rw [he]; simp
+    obtain ⟨am, _, rfl⟩ := List.mem_map.mp hmem
+    cases hx : x'.1 <;> simp [SteerNonFinite, hx] at hnf
+
 /-! ### the full statement (NOT proved: rounding) -/
 
 /-- a snapshot is well-formed: finite offset, finite non-negative variance, finite delay, `observe` ok -/
@@ -323,6 +378,7 @@ end NtpVerif.C06
 #print axioms NtpVerif.C06.progress_keeps_psd
 #print axioms NtpVerif.C06.innovation_variance_positive
 #print axioms NtpVerif.C06.absorb_keeps_psd
+#print axioms NtpVerif.C06.absorb_keeps_psd_general
 #print axioms NtpVerif.C06.absorb_always_symmetric
 #print axioms NtpVerif.C06.weight_in_unit_interval
 #print axioms NtpVerif.C06.history_keeps_psd
@@ -338,3 +394,6 @@ end NtpVerif.C06
 #print axioms NtpVerif.C06.periodic_state_exit_f64
 #print axioms NtpVerif.C06.periodic_nan_terminates
 #print axioms NtpVerif.C06.periodic_update_no_panic
+#print axioms NtpVerif.C06.filter_history_no_panic
+#print axioms NtpVerif.C06.periodic_history_no_panic
+#print axioms NtpVerif.C06.filter_measurements_never_panic
